@@ -34,3 +34,42 @@ func WaitGoroutineIdle(fn string) {
 		time.Sleep(200 * time.Microsecond)
 	}
 }
+
+// GoroutineStates (native runs only) returns the scheduler state ("chan send", "chan receive", "running",
+// "sync.RWMutex.RLock", ...) of every goroutine whose stack trace contains all of subs.
+func GoroutineStates(subs ...string) []string {
+	buf := make([]byte, 1<<20)
+	n := runtime.Stack(buf, true)
+	var out []string
+next:
+	for _, g := range strings.Split(string(buf[:n]), "\n\n") {
+		for _, s := range subs {
+			if !strings.Contains(g, s) {
+				continue next
+			}
+		}
+		hdr := g
+		if i := strings.IndexByte(g, '\n'); i >= 0 {
+			hdr = g[:i]
+		}
+		st := ""
+		if i := strings.IndexByte(hdr, '['); i >= 0 {
+			st = strings.TrimSuffix(hdr[i+1:], "]:")
+			// "chan receive, 2 minutes" -> "chan receive"
+			if j := strings.IndexByte(st, ','); j >= 0 {
+				st = st[:j]
+			}
+		}
+		out = append(out, st)
+	}
+	return out
+}
+
+// Parked: the state of a goroutine that cannot run until somebody else acts.
+func Parked(state string) bool {
+	switch state {
+	case "running", "runnable", "syscall", "":
+		return false
+	}
+	return true
+}
